@@ -45,15 +45,26 @@ let handle kind fs obs =
                 (sn (uw_count get u)) (sn (uw_frame_register get u)) (sn (uw_frame_offset get u)) (show_rr (Ok (uw_codes get u)))
     | r -> show_rr r) in
   let show_items items = join ";" (List.map (fun it -> Printf.sprintf "%s.%s.%s.%s" (sn it.pg_rva) (sn it.pg_size) (sn it.pg_name.r_off) (sn it.pg_name.r_len)) items) in
-  let hexat o k = String.concat "" (List.init k (fun i -> Printf.sprintf "%02x" (int_of_n (get (addn o i))))) in
-  let show_entry_head (e : entry res) = (match e with
-    | Ok (ECv20 (i, nm)) -> Printf.sprintf "cv20:%s:NB10:%s:%s:%s:%s" (sn i) (sn (u32at get (addn i 8))) (sn (u32at get (addn i 12))) (sn nm.r_off) (sn nm.r_len)
-    | Ok (ECv70 (i, nm)) -> Printf.sprintf "cv70:%s:RSDS:%s:%s:%s:%s" (sn i) (hexat (addn i 4) 16) (sn (u32at get (addn i 20))) (sn nm.r_off) (sn nm.r_len)
-    | Ok (EDbg i) -> Printf.sprintf "dbg:%s:%s:%s:%s" (sn i) (sn (u32at get i)) (sn (u32at get (addn i 4))) (sn (u8at get (addn i 8)))
+  (* the fields behind the returned references are decoded by extracted Coq functions: [fields] is Model/DirsFields.v entry_fields
+     on the model side and Spec/DirShape.v entry_fields_shape (literal offsets, theorem C15_entry_fields) on the spec side *)
+  let str_of_bytes l = String.concat "" (List.map (fun b -> String.make 1 (Char.chr (int_of_n b land 255))) l) in
+  let hex_of_bytes l = String.concat "" (List.map (fun b -> Printf.sprintf "%02x" (int_of_n b)) l) in
+  let show_entry_head_with (fields : entry -> efields) (e : entry res) = (match e with
+    | Ok (ECv20 (i, nm) as x) -> (match fields x with
+        | FCv20 (fmt, offset, stamp, age) -> Printf.sprintf "cv20:%s:%s:%s:%s:%s:%s:%s" (sn i) (str_of_bytes fmt) (sn stamp) (sn age) (sn nm.r_off) (sn nm.r_len) (sn offset)
+        | _ -> "!fields")
+    | Ok (ECv70 (i, nm) as x) -> (match fields x with
+        | FCv70 (fmt, guid, age) -> Printf.sprintf "cv70:%s:%s:%s:%s:%s:%s" (sn i) (str_of_bytes fmt) (hex_of_bytes guid) (sn age) (sn nm.r_off) (sn nm.r_len)
+        | _ -> "!fields")
+    | Ok (EDbg i as x) -> (match fields x with
+        | FMisc (dt, len, uni) -> Printf.sprintf "dbg:%s:%s:%s:%s" (sn i) (sn dt) (sn len) (sn uni)
+        | _ -> "!fields")
     | Ok (EPgo r) -> Printf.sprintf "pgo:%s:%s" (sn r.r_off) (sn (n_of_z (Z.div (z_of_n r.r_len) (Z.of_int 4))))
     | Ok (EUnknown d) -> "unk:" ^ show_or d
     | Err e -> "e:" ^ show_err e
     | Fault _ -> "fault") in
+  let show_entry_head = show_entry_head_with (entry_fields get) in
+  let show_entry_head_spec = show_entry_head_with (entry_fields_shape get) in
   let show_entry (e : entry res) = (match e with
     | Ok (EPgo r) -> show_entry_head e ^ ":" ^ (match pgo_iter get r with Ok items -> show_items items | _ -> "fault")
     | _ -> show_entry_head e) in
@@ -114,12 +125,18 @@ let handle kind fs obs =
               | _ -> "fault")) in
            (String.concat ";" toks, Some !good))
       | "sec" ->
+        (* image().dwLength / wRevision / certificate_type(): extracted Model functions on the model side, the literal-offset
+           reading Spec/DirShape.v security_fields_shape (theorem C15_security_fields) on the spec side; the certificate bytes of the
+           model (certificate_bytes) must be the Size-8 bytes from offset 8 *)
         let show r = (match r with
-          | Ok rg -> Printf.sprintf "ok:%s:%s:%s" (sn rg.r_off) (sn (certificate_type get rg)) (show_rr (certificate_data rg))
+          | Ok rg -> Printf.sprintf "ok:%s:%s:%s:%s:%s" (sn rg.r_off) (sn (certificate_type get rg)) (show_rr (certificate_data rg))
+                       (sn (sec_length get rg)) (sn (sec_revision get rg))
           | r -> show_rr r) in
         let show_spec r = (match r with
-          | Ok rg -> Printf.sprintf "ok:%s:%s:%s" (sn rg.r_off) (sn (u16at get (addn rg.r_off 6)))
+          | Ok rg -> let sh = security_fields_shape get rg.r_off rg.r_len in
+                     Printf.sprintf "ok:%s:%s:%s:%s:%s" (sn rg.r_off) (sn sh.ss_type)
                        (match certificate_data_spec (dd 4) with Some d -> show_rr (Ok d) | None -> "none")
+                       (sn sh.ss_length) (sn sh.ss_revision)
           | r -> show_rr r) in
         let r = security_try_from v (dd 4) in
         (match r with Ok _ -> tag "sec-ok" | Err EUnmapped -> tag "sec-unmapped" | Err ENull -> tag "sec-null" | Err EMisaligned -> tag "sec-misaligned" | _ -> tag "sec-err");
@@ -152,7 +169,7 @@ let handle kind fs obs =
               let es = entry_spec v d in
               let ent_ok = (match es with
                 | Ok (EPgo rg) ->
-                  let h = show_entry_head es ^ ":" in
+                  let h = show_entry_head_spec es ^ ":" in
                   let ie = piece ip 2 in
                   String.length ie >= String.length h && String.sub ie 0 (String.length h) = h &&
                   (let rest = String.sub ie (String.length h) (String.length ie - String.length h) in
@@ -162,7 +179,7 @@ let handle kind fs obs =
                        | _ -> failwith "item") (split_on ';' rest) in
                      pgo_iter_check get rg items
                    with _ -> false)
-                | _ -> piece ip 2 = show_entry_head es) in
+                | _ -> piece ip 2 = show_entry_head_spec es) in
               (m, Some (piece ip 0 = head && piece ip 1 = show_or (dir_data_spec v d) && ent_ok && Array.length ip = 3)))
          | _ -> ("none", Some (im = "none")))
       | "tls" ->
